@@ -2,8 +2,8 @@ package main
 
 func init() {
 	register(&PropDef{
-		ID:    "C05",
-		Level: "other",
+		ID:          "C05",
+		Level:       "other",
 		Explanation: "Decision-table and effect rules for admission, decided from the SSA of the admission function and the accept function: (1) the admission function touches its inputs only through comparisons, so evaluating its enumerated paths on one representative per order type of (running ? concurrency) × delay × ignore × queue_limit{unset,0,n} × strategy × (waiting ? 0, waiting ? limit) decides its table for every input; it must equal the stated table; the slot-free atom uses the exact running predicate (8 rows) and a counting function of the recognised shape; (2) in the accept function every rejected path is effect-free (no index, wait-list, timer, persist or job store), Queue pushes back, Replace cancels and overwrites the last entry, Start starts without queueing, a timer is armed iff the job's own delay > 0; (3) every site that marks a job canceled is one of the enumerated kinds, each paired with its wait-list effect in the same lock region, so the wait list holds only waiting jobs. Decides these shapes; does not compose them over histories.",
 		Trusted:     []string{"C13 (each exported operation runs in one uninterrupted lock region)", "validation guarantees concurrency ≥ 1 and non-negative limits (C17)"},
 		NotDecided:  []string{"composition of the per-operation lemmas over arbitrary histories (argued in DESIGN.md, not mechanised)"},
@@ -21,8 +21,8 @@ func init() {
 		},
 	})
 	register(&PropDef{
-		ID:    "C06",
-		Level: "other",
+		ID:          "C06",
+		Level:       "other",
 		Explanation: "FIFO as a shape of the code: every mutation of the wait list in the module is classified by the SSA form of the new value relative to the list loaded under the same key — push-back, pop-front, order-preserving delete-at-i, replace-last, clear are the only forms allowed; push-front, pop-back, swap-remove, sort or an unrecognised form is reported; a wait-list slice is never handed to another function; the dequeue function starts element 0 of the list and pops it; a list cached in a local is not written back after a call that can modify the wait list (lost update); a new request cannot overtake the queue by a direct start because every slot-freeing event (completion, failed start of a popped job, delay expiry, cancel of a waiting job) re-runs the dequeue in the same lock region and the running predicate is exactly started ∧ ¬completed ∧ ¬canceled (a slot is not freed before the completion handler runs). Decides the shapes, not the order of Start timestamps at run time.",
 		Trusted:     []string{"C13 (wait-list operations are serialised by the runner mutex)"},
 		NotDecided:  []string{"run-time order of Start timestamps", "jobs whose delay timer blocks the head (head-of-line blocking is by design)"},
